@@ -447,7 +447,7 @@ class WSGITask(Task):
 
         can_close_app_iter = True
         try:
-            if isinstance(app_iter, ReadOnlyFileBasedBuffer):
+            if isinstance(app_iter, ReadOnlyFileBasedBuffer) and not self.wrote_header:
                 cl = self.content_length
                 size = app_iter.prepare(cl)
                 if size:
